@@ -244,7 +244,7 @@ def handle (ws : List String) : String :=
     match st with
     | some st =>
       let out := fun (l : List String) => "TypeError|" ++ (if l.isEmpty then "-" else ",".intercalate l)
-      reply (out (messageScriptCalls st)) (out (Spec.messageScriptCalls st)) (if passesValue st then "msg_runs_script" else "-")
+      reply (out (messageScriptCalls st)) (out (Spec.messageScriptCalls st)) "-"
     | none => "bad-op"
   | ["uthrow", _via, kind, txtAt] =>
     -- the text token is followed by `@` + the JS expression that builds the thrown value (for the harness only)
